@@ -68,6 +68,26 @@ func c06IndexBound(c *c06ctx, pr *Protocol, rel string, vm *ssa.Function, accept
 				found = found || all
 				continue
 			}
+			// the bound picked by a private helper from the message's content type: one bound per return
+			if call, isC := valueOfTerm(y).(*ssa.Call); isC && !call.Call.IsInvoke() && core.PrivateHelper(core.Callee(call)) {
+				h := core.Callee(call)
+				fromContent := false
+				for _, a := range call.Call.Args {
+					if ac, isCall := core.Strip(a).(*ssa.Call); isCall && ac.Call.IsInvoke() && ac.Call.Method.Name() == "Content" {
+						fromContent = true
+					}
+				}
+				all := fromContent
+				n := 0
+				for _, ret := range core.Returns(h) {
+					n++
+					if !addBound(core.TermOf(ret.Results[0]), assertedTypesAt(ret.Block())) {
+						all = false
+					}
+				}
+				found = found || (all && n > 0)
+				continue
+			}
 			if addBound(y, nil) {
 				found = true
 			}
